@@ -388,11 +388,11 @@ func intp(i int) *int { return &i }
 func envStdMap() interface{} {
 	return map[string]interface{}{
 		"n": 42, "x": 2.5, "s": "héllo", "b": true,
-		"l":  []int{3, 1, 3, 2},
-		"ls": []string{"a", "b", "a", "c"},
+		"l":  spareInts([]int{3, 1, 3, 2}),
+		"ls": spareStrs([]string{"a", "b", "a", "c"}),
 		"m":  map[string]int{"k1": 1, "k2": 2, "k3": 3, "k4": 4},
 		"mi": map[int]string{1: "one", 2: "two", 3: "three"},
-		"o":  Inner{7, "seven", []string{"x", "y"}},
+		"o":  Inner{7, "seven", spareStrs([]string{"x", "y", "z"})},
 		"p":  &WithMaybe{A: 1.5, B: intp(5), C: nil},
 		"t":  time.Unix(1600000000, 0),
 		"ll": [][]int{{1, 2}, {3}},
@@ -403,13 +403,27 @@ func envStdMap() interface{} {
 
 func nil2() []string { return []string{} }
 
+// host slices with spare capacity (what append-built host data looks like): the region
+// between len and cap is part of the "host data not modified" snapshot
+func spareInts(s []int) []int {
+	t := make([]int, len(s), len(s)+4)
+	copy(t, s)
+	return t
+}
+
+func spareStrs(s []string) []string {
+	t := make([]string, len(s), len(s)+3)
+	copy(t, s)
+	return t
+}
+
 func envStdStruct() interface{} {
 	return &EnvStruct{
 		N: 42, X: 2.5, S: "héllo", B: true,
-		L: []int{3, 1, 3, 2}, Ls: []string{"a", "b", "a", "c"},
+		L: spareInts([]int{3, 1, 3, 2}), Ls: spareStrs([]string{"a", "b", "a", "c"}),
 		M:  map[string]int{"k1": 1, "k2": 2, "k3": 3, "k4": 4},
 		Mi: map[int]string{1: "one", 2: "two", 3: "three"},
-		O:  Inner{7, "seven", []string{"x", "y"}},
+		O:  Inner{7, "seven", spareStrs([]string{"x", "y", "z"})},
 		P:  &WithMaybe{A: 1.5, B: intp(5), C: nil},
 		T:  time.Unix(1600000000, 0),
 		Ll: [][]int{{1, 2}, {3}},
@@ -451,7 +465,7 @@ func envStdStruct3() interface{} {
 		L: []int{4, 2, 4, 3}, Ls: []string{"b", "c", "b", "d"},
 		M:  map[string]int{"k1": 11, "k2": 12, "k3": 13, "k4": 14},
 		Mi: map[int]string{1: "uno", 2: "dos", 3: "tres"},
-		O:  Inner{8, "eight", []string{"y", "z"}},
+		O:  Inner{8, "eight", []string{"y", "z", "w"}},
 		P:  &WithMaybe{A: 2.5, B: intp(6), C: nil},
 		T:  time.Unix(1600000100, 0),
 		Ll: [][]int{{2, 3}, {4}},
@@ -564,6 +578,7 @@ var sameTyped = map[string][]string{
 	"map2": {"map", "struct", "map2", "struct2", "map3", "struct3"}, "struct2": {"map", "struct", "map2", "struct2", "map3", "struct3"},
 	"map3": {"map", "struct", "map2", "struct2", "map3", "struct3"}, "struct3": {"map", "struct", "map2", "struct2", "map3", "struct3"},
 	"alt": {"alt", "altstruct"}, "altstruct": {"alt", "altstruct"},
+	"alt2": {"alt2", "alt2struct"}, "alt2struct": {"alt2", "alt2struct"},
 }
 
 func envSmall() interface{} {
@@ -618,6 +633,48 @@ func envAltStruct() interface{} {
 	}
 }
 
+// "alt2": the same names again, but scalars and lists change places (n, x are lists, l and
+// ll are scalars): a call that resolves to a polymorphic overload under one typing resolves
+// to a monomorphic one under the other (n == x, l == l, string(n), if(b, n, x)).
+type EnvStruct3 struct {
+	N  []int            `yae:"n"`
+	X  []int            `yae:"x"`
+	S  string           `yae:"s"`
+	B  bool             `yae:"b"`
+	L  int              `yae:"l"`
+	Ls string           `yae:"ls"`
+	M  map[string]int   `yae:"m"`
+	Mi map[int]string   `yae:"mi"`
+	O  Inner            `yae:"o"`
+	P  *WithMaybe       `yae:"p"`
+	T  time.Time        `yae:"t"`
+	Ll []int            `yae:"ll"`
+	Lo []Inner          `yae:"lo"`
+	Mo map[string]Inner `yae:"mo"`
+}
+
+func envAlt2Struct() interface{} {
+	return &EnvStruct3{
+		N: []int{4, 2}, X: []int{4, 2}, S: "héllo", B: true, L: 7, Ls: "str",
+		M:  map[string]int{"k1": 1, "k2": 2, "k3": 3, "k4": 4},
+		Mi: map[int]string{1: "one", 2: "two", 3: "three"},
+		O:  Inner{7, "seven", []string{"x", "y", "z"}},
+		P:  &WithMaybe{A: 1.5, B: intp(5), C: nil},
+		T:  time.Unix(1600000000, 0),
+		Ll: []int{1, 2},
+		Lo: []Inner{{1, "a", nil2()}, {2, "b", []string{"t"}}},
+		Mo: map[string]Inner{"u": {1, "a", []string{"q"}}, "v": {2, "b", []string{"r"}}},
+	}
+}
+
+func envAlt2Map() interface{} {
+	e := envAlt2Struct().(*EnvStruct3)
+	return map[string]interface{}{
+		"n": e.N, "x": e.X, "s": e.S, "b": e.B, "l": e.L, "ls": e.Ls, "m": e.M, "mi": e.Mi,
+		"o": e.O, "p": e.P, "t": e.T, "ll": e.Ll, "lo": e.Lo, "mo": e.Mo,
+	}
+}
+
 func envAltMap() interface{} {
 	e := envAltStruct().(*EnvStruct2)
 	return map[string]interface{}{
@@ -657,12 +714,14 @@ var envMakers = map[string]func() interface{}{
 	"hetero2":   envHetero2,
 	"alt":       envAltMap,
 	"altstruct": envAltStruct,
+	"alt2":      envAlt2Map,
+	"alt2struct": envAlt2Struct,
 	"none":   func() interface{} { return nil },
 	"map":    envStdMap,
 	"struct": envStdStruct,
 	"small":  envSmall,
 }
-var envNames = []string{"map", "struct", "none", "small", "alt", "altstruct"}
+var envNames = []string{"map", "struct", "none", "small", "alt", "altstruct", "alt2", "alt2struct"}
 
 // deepSnapshot renders a host value for the "host data not modified" invariant.
 func deepSnapshot(v interface{}) string {
@@ -689,6 +748,16 @@ func snapRV(rv reflect.Value, d int) string {
 		xs := make([]string, rv.Len())
 		for i := range xs {
 			xs[i] = snapRV(rv.Index(i), d+1)
+		}
+		if rv.Kind() == reflect.Slice && rv.Cap() > rv.Len() {
+			// the spare capacity belongs to the host too: a write through an alias of the
+			// backing array (an append in place) shows up here
+			sp := rv.Slice(rv.Len(), rv.Cap())
+			ys := make([]string, sp.Len())
+			for i := range ys {
+				ys[i] = snapRV(sp.Index(i), d+1)
+			}
+			return "[" + strings.Join(xs, ",") + "|spare:" + strings.Join(ys, ",") + "]"
 		}
 		return "[" + strings.Join(xs, ",") + "]"
 	case reflect.Map:
@@ -740,13 +809,13 @@ var genericUserSrcs = []string{
 	"[nest(len(l)), nest(nest(len(ls)))]", "when(b, nest(1), nest(2)) + nest(when(b, 3, 4))",
 	"tr(n) == n", "first(l, n)", "when(b, n, x)", "[tr(n), tr(x)]", "when(orelse(b, false), first(l, x), n)",
 }
-var genericEnvs = []string{"map", "struct", "alt", "altstruct"}
+var genericEnvs = []string{"map", "struct", "alt", "altstruct", "alt2", "alt2struct"}
 
 func pickGeneric(r *rng, user bool) Prog {
 	if user && r.chance(0.4) {
-		return Prog{genericUserSrcs[r.intn(len(genericUserSrcs))], genericEnvs[r.intn(4)], true, true}
+		return Prog{genericUserSrcs[r.intn(len(genericUserSrcs))], genericEnvs[r.intn(len(genericEnvs))], true, true}
 	}
-	return Prog{genericSrcs[r.intn(len(genericSrcs))], genericEnvs[r.intn(4)], false, true}
+	return Prog{genericSrcs[r.intn(len(genericSrcs))], genericEnvs[r.intn(len(genericEnvs))], false, true}
 }
 
 // fixed pool: every documented feature at least once, plus some ill-typed ones.
